@@ -101,4 +101,46 @@ theorem sstep_patOf (p : LocPath) (hp : ∀ s ∈ p, SStep s) : ∀ s ∈ patOf 
       exact ⟨h1, h2, by simp⟩
     · exact hp s (List.mem_cons_of_mem _ hs)
 
+/-- the path a matcher designates from the root in the given mode -/
+def modePath (ic : Bool) (p : LocPath) : LocPath := if ic then patOf p else p
+
+/-- **SimplePathStrategy designates the XPath node set of every supported spelling, in both
+    modes**: `None` / `True` results, `True` exactly at the nodes `p` (relative mode) or
+    `descendant-or-self::first/rest` (pattern mode) selects from the root -/
+theorem simple_spelling_marks (ns : NsMap) (xvs : XVars) (ic : Bool) (p : LocPath) (hp : ∀ s ∈ p, SStep s)
+    (hne : p ≠ []) (tag : QName) (attrs : AttrList) (kids : List Node) (hcl : cleanList kids = true) :
+    okVals (runOne (pStep (fragments p) ic ns) [] (Node.elem tag attrs kids).flatten).1
+        (eventLocs (.elem tag attrs kids) []) ∧
+    ∀ x : List Nat, selB (runOne (pStep (fragments p) ic ns) [] (Node.elem tag attrs kids).flatten).1
+        (eventLocs (.elem tag attrs kids) []) x
+      = reach ns xvs (modePath ic p) ⟨[], .elem tag attrs kids⟩ ⟨x, .elem tag attrs kids⟩ := by
+  have h0 := fragments_sem ns xvs p hp hne
+  have h1 := fragments_sem_pattern ns xvs p hp hne
+  cases hf : fragments p with
+  | none =>
+    rw [hf] at h0 h1
+    simp only at h0 h1
+    obtain ⟨o1, o2⟩ := okVals_replicate (eventLocs (.elem tag attrs kids) [])
+    rw [eventLocs_length] at o1 o2
+    rw [run_none]
+    refine ⟨o1, fun x => ?_⟩
+    rw [o2 x]
+    cases ic <;> simp [modePath, h0, h1]
+  | some out =>
+    rw [hf] at h0 h1
+    simp only at h0 h1
+    cases ic with
+    | false =>
+      obtain ⟨s1, s2⟩ := simple_marks ns xvs out h0.1 tag attrs kids hcl
+      refine ⟨s1, fun x => ?_⟩
+      apply Bool.eq_iff_iff.mpr
+      rw [s2 ⟨x, .elem tag attrs kids⟩]
+      simp [modePath, h0.2]
+    | true =>
+      obtain ⟨s1, s2⟩ := simple_marks_pattern ns xvs out h0.1 tag attrs kids hcl
+      refine ⟨s1, fun x => ?_⟩
+      apply Bool.eq_iff_iff.mpr
+      rw [s2 ⟨x, .elem tag attrs kids⟩]
+      simp [modePath, h1]
+
 end Genshi.Path.Frags
